@@ -1252,6 +1252,11 @@ class Authenticated(BaseClientHandler):
 
         try:
             mbox = await self.server.get_mailbox(cmd.mailbox_name)
+            # A `\Noselect` mailbox is only a place in the hierarchy: it does
+            # not hold messages.
+            #
+            if r"\Noselect" in mbox.attributes:
+                raise NoSuchMailbox(f"No such mailbox: '{cmd.mailbox_name}'")
             async with cmd.ready_and_okay(mbox):
                 uid = await mbox.append(
                     cmd.message, cmd.flag_list, cmd.date_time
@@ -1688,6 +1693,10 @@ class Authenticated(BaseClientHandler):
             await self.expunges_while_waiting(cmd)
             try:
                 dest_mbox = await self.server.get_mailbox(cmd.mailbox_name)
+                if r"\Noselect" in dest_mbox.attributes:
+                    raise NoSuchMailbox(
+                        f"No such mailbox: '{cmd.mailbox_name}'"
+                    )
                 src_uids, dst_uids = await self.mbox.copy(
                     cmd.msg_set,
                     dest_mbox,
@@ -1765,6 +1774,10 @@ class Authenticated(BaseClientHandler):
             await self.expunges_while_waiting(cmd)
             try:
                 dest_mbox = await self.server.get_mailbox(cmd.mailbox_name)
+                if r"\Noselect" in dest_mbox.attributes:
+                    raise NoSuchMailbox(
+                        f"No such mailbox: '{cmd.mailbox_name}'"
+                    )
                 src_uids, dst_uids = await self.mbox.copy(
                     cmd.msg_set,
                     dest_mbox,
